@@ -115,6 +115,10 @@ def make_action(w, sd_names, enames, pnames):
     return A.PrivilegeEscalation("pe?", t, c, acc, process=procn[proc], os=o, prob=prob, req_access=req)
 
 
+class CallerArrayModified(Exception):
+    pass
+
+
 class ImplRunner:
     """One environment driven by wire ops."""
 
@@ -126,6 +130,7 @@ class ImplRunner:
         self.addrs = [a for a, _ in sd["hosts"]]
         self.lay = (sd["bounds"][0], sd["bounds"][1], sd["nos"], sd["nsrv"], sd["nproc"])
         self.modes = modes
+        self.held = {}
         self.arg_style = arg_style
         self.shim = Shim()
         self.env = NASimEnv(scenario, fully_obs=bool(modes[0]), flat_actions=bool(modes[1]),
@@ -141,7 +146,14 @@ class ImplRunner:
             return int(x[1])
         if tag == 1:
             if self.arg_style == "numpy":
-                return np.array(x[1], dtype=np.int64)
+                # an agent keeps ONE array per distinct action and passes it again and again
+                key = tuple(x[1])
+                if key not in self.held:
+                    self.held[key] = np.array(x[1], dtype=np.int64)
+                elif tuple(int(v) for v in self.held[key]) != key:
+                    raise CallerArrayModified(f"the action array {list(key)} handed to the environment earlier now reads "
+                                              f"{[int(v) for v in self.held[key]]}")
+                return self.held[key]
             if self.arg_style == "tuple":
                 return tuple(x[1])
             return list(x[1])
